@@ -77,6 +77,11 @@ def peers_for(rnd):
     # names whose table entry consists of failure notes only (no warning or information list)
     P.append(dict(good, kex=['curve25519-sha256', 'kex-strict-s-v00@openssh.com'], key=['ssh-ed25519', 'ssh-xmss@openssh.com'],
                   enc=['arcfour', 'aes256-gcm@openssh.com', 'arcfour256', '3des-ctr', 'none'], mac=['hmac-sha2-256-etm@openssh.com', 'none']))
+    # several gss-* key exchanges of one family (one database entry covers them all): each is rated and recommended for removal, in the
+    # advertised order, whatever the interpreter's hash seed
+    T = ('toWM5Slw5Ew8Mqkay+al2g==', 'eipGX3TCiQSrx573bT1o1Q==', 'A/vxljAEU54gt9a48EiANQ==')
+    P.append(dict(good, kex=['gss-group1-sha1-' + t for t in T] + ['gss-gex-sha1-' + t for t in T] + ['gss-group14-sha1-' + T[2], 'gss-group14-sha1-' + T[0], 'curve25519-sha256'],
+                  hashseed=True))
     # a client whose KEXINIT names different algorithms per direction (the report lists one direction, in every format)
     P.append(dict(good, role='client', kex=['curve25519-sha256'], enc=['aes128-ctr', 'aes256-gcm@openssh.com'], mac=['hmac-sha2-256', 'umac-128@openssh.com'],
                   enc_c2s=['3des-cbc', 'aes128-ctr'], mac_c2s=['hmac-md5', 'hmac-sha2-256-etm@openssh.com']))
@@ -352,6 +357,20 @@ def targets_leg(ck, tier, rnd):
         sc['observe'] = False
         scs.append(sc)
         meta.append((1, ('repeated-line', fmt), labels + [labels[0]]))
+    # the same server before and after a different one (same algorithms, other findings): its two documents / blocks are identical
+    A = rating.mk_case(950, kex=['curve25519-sha256', 'kex-strict-s-v00@openssh.com'], key=['ssh-ed25519'], enc=['chacha20-poly1305@openssh.com', 'aes256-ctr'],
+                       mac=['hmac-sha2-256-etm@openssh.com'], sw={'product': 'OpenSSH', 'c': [9, 6], 'p': ['none', 0]})
+    B = rating.mk_case(951, kex=['curve25519-sha256'], key=['ssh-ed25519'], enc=['chacha20-poly1305@openssh.com', 'aes256-ctr'],
+                       mac=['hmac-sha2-256-etm@openssh.com'], sw={'product': 'OpenSSH', 'c': [9, 6], 'p': ['none', 0]})
+    for threads in (1, 2):
+        for fmt in ('-j', '-n'):
+            sc, labels = multi.scenario([('server', rating.server_cfg(A)), ('server', rating.server_cfg(B))], threads, (0, 1) if threads == 1 else None, json_out=(fmt == '-j'))
+            first = sc['files']['targets.txt'].split('\n')[0]
+            sc['files']['targets.txt'] = sc['files']['targets.txt'] + first + '\n'
+            sc.pop('setup', None)
+            sc['observe'] = False
+            scs.append(sc)
+            meta.append((threads, ('same-server-twice', fmt), labels + [labels[0]]))
     results = runner.run_many(scs)
     ref = {}
     for sc, (threads, o, labels), r in zip(scs, meta, results):
@@ -360,6 +379,23 @@ def targets_leg(ck, tier, rnd):
             raise common.Machinery('target-list run failed: %r' % (r.get('harness_error') or 'hang'))
         tag = ' '.join(o) or 'default'
         replay = {'argv': sc['argv'], 'exit': r['exit'], 'stdout': r['stdout'][-2500:]}
+        if o and o[0] == 'same-server-twice':
+            if o[1] == '-j':
+                try:
+                    els = [e for e in json.loads(r['stdout']) if isinstance(e, dict) and e.get('target') == labels[0]]
+                except ValueError:
+                    els = []
+            else:
+                els = [multi.strip_target_line(b).strip('\n').rstrip('-').strip('\n') for b in multi.split_text(r['stdout']) if multi.label_of_block(b, labels[:2]) == labels[0]]
+            if len(els) != 2:
+                ck.violation('same-server-twice count view=%s' % ('json' if o[1] == '-j' else 'text'), 'a server listed before and after another one: %d reports for it' % len(els), replay)
+            elif els[0] != els[1]:
+                ck.violation('same-server-twice differs view=%s' % ('json' if o[1] == '-j' else 'text'),
+                             'a server listed before and after another one (%d thread(s)): its two reports differ' % threads, replay)
+            else:
+                ck.cov['traces_validated_against_impl'] += 1
+                ck.nontrivial(('same-server-twice', threads, o[1]))
+            continue
         try:
             doc = json.loads(r['stdout'])
             assert isinstance(doc, list)
@@ -471,7 +507,7 @@ from checks import rating, c15
 import random
 P = c15.peers_for(random.Random(0))
 out = {}
-for i, p in enumerate(P[:7]):
+for i, p in enumerate(P[:7] + [q for q in P[7:] if q.get('hashseed')]):
     c = rating.mk_case(i + 1, kex=p['kex'], key=p['key'], enc=p['enc'], mac=p['mac'], hk=p.get('hk'), dh=p.get('dh'), sw={'product': 'OpenSSH', 'c': [9, 6], 'p': ['none', 0]})
     for view in ('text', 'json'):
         r = runner.run_one(rating.scenario(c, view))
